@@ -211,8 +211,8 @@ def gen(run, tier):
         show("result", &out); show("calls", &unsafe {{ LOG }}); show("ncalls", &unsafe {{ NLOG }});
         assert!({exp_log});
         assert!({nres});"""
-                hs.append(Harness(f"{ctor}_left_{lname}_right_{rname}", body, unwind=(6 if 6 in kinds else 1), stubs=[("Expr::eval_rec", "oracle_eval_rec")], heavy=True,
-                                  mandatory=False, native_body=native, abstract=True,
+                hs.append(Harness(f"{ctor}_left_{lname}_right_{rname}", body, unwind=1, stubs=[("Expr::eval_rec", "oracle_eval_rec")], heavy=True,
+                                  mandatory=True, native_body=native, abstract=True,
                                   meta={"operator": "==" if not negated_op else "!=", "function": efn, "left": lname, "right": rname,
                                         "asserted": "right operand not evaluated when the left is None (== false, != true); otherwise both once, left first"}))
     # -------------------------------------------------------------------- and / or (extension: memory-hungry in CBMC)
@@ -254,23 +254,29 @@ def gen(run, tier):
     return hs
 
 
-RULE = ("Kani harnesses on the real lazy helpers (`if`, and the equality helper shared by == and !=) with Expr::eval_rec replaced by a logging "
-        "oracle: one harness per kind of condition / operand result (Bool over both truth values, every non-Bool tag, None, an error), "
-        "asserting the exact evaluation log and the result. distinct = distinct harness ids")
+RULE = ("Kani harnesses with Expr::eval_rec replaced by a logging oracle: (a) the real lazy helpers (`if`, the equality helper of == / !=), one "
+        "harness per kind of condition / operand result; (b) every strict arm of the dispatcher, its right-hand side copied verbatim into its "
+        "own async fn: sub-expressions evaluated once each in field order, the first error ends the evaluation, the result is the arm's "
+        "function applied to the sub-results. Each asserts the exact evaluation log and the result. distinct = distinct harness ids")
 
 
 def check(run, only=None):
+    from .. import arms
     hs = gen(run, run.tier)
+    apre, ahs = arms.gen(run, run.tier, run.seed)
+    if run.tier == "quick":
+        ahs = [h for h in ahs if h.quick]
+    hs += ahs
     if only:
         hs = [h for h in hs if only in h.name]
     ov = Overlay(run, "c05")
-    ov.preamble(EVAL, PREAMBLE)
+    ov.preamble(EVAL, PREAMBLE + apre)
     for h in hs:
         ov.add(EVAL, h)
     ov.write()
     small = [h for h in hs if not getattr(h, "big", False)]
     big = [h for h in hs if getattr(h, "big", False)]
-    res = run_kani(run, small, jobs=8, timeout_s=600 if run.tier == "quick" else 2400, tag="lazy")
+    res = run_kani(run, small, jobs=10, timeout_s=600 if run.tier == "quick" else 2400, tag="lazy")
     import os
     if big and os.environ.get("VERIF_TRY_ANDOR"):
         # `and` / `or`: measured again in the build phase with the concrete-tag oracle: 46 GB and no verdict in 1500 s.
@@ -281,16 +287,18 @@ def check(run, only=None):
             pass
         big = []
     decide(run, small + big, res)
-    run.functions_encoded.update(["expr::eval::iif", "expr::eval::eq (when within reach)"])
+    run.functions_encoded.update(["expr::eval::iif", "expr::eval::eq", "every strict arm of Expr::eval_rec (right-hand side copied verbatim into its own async fn)"])
     run.assumptions += ["Expr::eval_rec is replaced by an oracle (#[kani::stub]) that logs which sub-expression is evaluated and returns a planned "
                         "result: the lazy helper's own code runs unmodified, the recursive dispatcher does not run",
                         "native replay realises the plan through the public API with a call-logging, non-cacheable user function"]
-    run.outside_claim += ["`and` / `or` (three formulations ran out of memory at 37-46 GB), lists, maps and call arguments (eval_vec / eval_map / "
-                          "Function arm), operand order and `?` short-circuit of the ~40 strict arms inside eval_rec: NOT decided",
-                          "the equality harnesses are extensions: listed inconclusive if CBMC gives no verdict"]
+    run.outside_claim += ["`and` / `or` (four formulations: 37-46 GB, no verdict), lists, maps and call arguments (eval_vec / eval_map / Function arm): NOT decided",
+                          "the strict arms are decided one arm at a time on a verbatim copy of the arm's right-hand side; the `match` dispatch itself "
+                          "(which pattern selects which arm) is read from the source, not executed"]
     return run.finish(rule=RULE)
 
 
 def replay(run, path):
     from ..replay import replay_file
-    return replay_file(run, path, gen_all=lambda: gen(run, "thorough"), file=EVAL, tag="c05", preamble=PREAMBLE)
+    from .. import arms
+    apre, ahs = arms.gen(run, "thorough", 0)
+    return replay_file(run, path, gen_all=lambda: gen(run, "thorough") + ahs, file=EVAL, tag="c05", preamble=PREAMBLE + apre)
